@@ -167,7 +167,20 @@ class HSym(_Hooks, SymlinkNode):
         self.i = i  # forwarded to the target
 
 
-CLASSES = {"mixin": (M, "mixin"), "light": (L, "light"), "mixin_eq": (ME, "mixin"), "light_eq": (LE, "light"), "node": (HNode, "mixin"), "anynode": (HAny, "mixin"), "symlink": (HSym, "mixin")}
+def _mixed(i):
+    """a forest mixing both mixin flavours: even indices NodeMixin-based, odd indices LightNodeMixin-based"""
+    return M(i) if i % 2 == 0 else L(i)
+
+
+class HNodeF(_AllEqual, _Hooks, Node):
+    """a library Node subclass with value/container semantics (all equal, empty, falsy)"""
+
+    def __init__(self, i):
+        Node.__init__(self, "n%d" % i)
+        self.i = i
+
+
+CLASSES = {"mixin": (M, "mixin"), "light": (L, "light"), "mixin_eq": (ME, "mixin"), "light_eq": (LE, "light"), "mixed": (_mixed, "light"), "node_eq": (HNodeF, "mixin"), "node": (HNode, "mixin"), "anynode": (HAny, "mixin"), "symlink": (HSym, "mixin")}
 
 
 class NotANode(object):
@@ -227,11 +240,10 @@ def build_forest(cls, pv, touched):
         if p >= 0:
             nodes[i].parent = nodes[p]
     if touched:
-        scratch = cls(-1)
         for nd in nodes:
             nd.children
             if nd.parent is None:
-                nd.parent = scratch
+                nd.parent = type(nd)(-1)  # a scratch node of the same flavour
                 nd.parent = None
     return nodes
 
@@ -445,12 +457,19 @@ def c01_body(cfg):
     exc_cls = VetoTree if cfg.get("veto") == "tree" else Veto
     if F.refusal(parent, children, op, family) == "UNSPECIFIED":
         return True
+    if clsname == "mixed" and any(p >= 0 and p % 2 != i % 2 for i, p in enumerate(pv)):
+        return True  # every tree of a reachable pre-state is of one flavour (a cross-flavour attach is always refused)
     with concrete_region():
         for touched, plan, nodes, exc, log, args in variants(clsname, pv, op, cfg, exc_cls):
             got = classify(exc)
             if any(plan.answers) or got != "ok":
                 nontrivial()
-            if got not in ("ok", "Veto", "LoopError", "TreeError", "TypeError"):
+            allowed = ("ok", "Veto", "LoopError", "TreeError", "TypeError")
+            if clsname == "mixed":
+                # the current code refuses a cross-flavour attach with AttributeError (private helper of the other
+                # mixin); C01 only demands that the forest stays consistent whatever is raised
+                allowed = allowed + ("Other:AttributeError",)
+            if got not in allowed:
                 return {"why": "unexpected exception class", "pv": pv, "op": op, "touched": touched, "exc": repr(exc), "faults": list(plan.answers)}
             bad = real_invariant(nodes)
             if bad:
@@ -509,6 +528,12 @@ def c18_body(cfg):
             ma, mb = real_map(nodes_a), real_map(nodes_b)
             if ma != mb:
                 return {"why": "post-state differs", "pv": pv, "op": op, "faults": list(plan.answers), "mixin": list(ma), "light": list(mb)}
+            if not touched and op[0] == "children" and op[2] != NONITER and cfg.get("faults", "none") == "none":
+                # the same call with a one-shot iterable instead of a list
+                na, ea, la, _ = run_real(cfg.get("mixcls", "mixin"), pv, False, op, FaultPlan({"faults": "none"}), as_iter=iter)
+                nb, eb, lb, _ = run_real(cfg.get("lightcls", "light"), pv, False, op, FaultPlan({"faults": "none"}), as_iter=iter)
+                if classify(ea) != classify(eb) or la != lb or real_map(na) != real_map(nb):
+                    return {"why": "iterator argument: the two mixins differ", "pv": pv, "op": op, "mixin": [repr(ea), list(real_map(na))], "light": [repr(eb), list(real_map(nb))]}
             if not touched and real_invariant(nodes_a) is None:
                 qa = queries.all_queries(nodes_a)
                 qb = queries.all_queries(nodes_b)
@@ -524,8 +549,9 @@ def ctor_body(cfg):
     kind = cfg.get("cls", "node")
     n, pv = pick_forest(cfg)
     parent, children = model_from_pv(pv)
-    b = nondet_int(-1, n, "b")
-    b = None if b < 0 else (NON if b == n else b)
+    b = nondet_int(-1, n + 1, "b")
+    zero_parent = b == n + 1  # the falsy non-node value 0 as parent
+    b = None if b < 0 else (NON if b >= n else b)
     ln = nondet_int(0, cfg.get("L", 2), "len")
     xs = []
     for j in range(ln):
@@ -534,8 +560,10 @@ def ctor_body(cfg):
     xs = tuple(xs)
     with concrete_region():
         base = {"node": HNode, "anynode": HAny, "symlink": HSym}[kind]
+        if cfg.get("valsem"):
+            base = HNodeF  # the existing nodes are falsy / all-equal library Nodes
         nodes = build_forest(base, pv, False)
-        non = NotANode()
+        non = 0 if zero_parent else NotANode()
         rb = None if b is None else (non if b == NON else nodes[b])
         rxs = [non if x == NON else nodes[x] for x in xs]
         exc = None
